@@ -7,6 +7,7 @@ StepBudgetExceeded (a BaseException, so the package cannot swallow it) once the 
 bounded-progress restatement of "terminates". 64 per doubling is degree 6, far above anything legitimate observed (<= 3.6).
 """
 import collections
+import collections.abc
 import sys
 
 import prettyprinter
@@ -53,11 +54,27 @@ WRAPPERS = {
     'LSUB': lambda v: MyList([v]),
     'DSUB': lambda v: MyDict({'k': v}),
     'UT': lambda v: UserT(v, key=1),
+    'UT1': lambda v: UserT(v),                 # sole positional argument that is not a list/dict/tuple: the non-hugging path
+    'UT2': lambda v: UserT(v, 2),
+    'UTK': lambda v: UserT(key=v),
+    'EXC1': lambda v: ValueError(v),
+    'CM1': lambda v: collections.ChainMap(v) if isinstance(v, collections.abc.Mapping) else collections.ChainMap({'k': v}),
+    'FZ1': lambda v: (frozenset([v]) if _hashable(v) else frozenset([1]), v)[0 if _hashable(v) else 1],
+    'OD1': lambda v: collections.OrderedDict(k=v),
+    'DQ1': lambda v: collections.deque([v]),
     'UTC': lambda v: UserT(comment(v, 'note'), key=1),
     'DC': lambda v: DataC(v),
     'FST': lambda v: (frozenset([1]), v),
     'LTS': lambda v: [({3, 4}, v)],
 }
+
+
+def _hashable(v):
+    try:
+        hash(v)
+        return True
+    except TypeError:
+        return False
 
 
 class MyList(list):
@@ -91,7 +108,7 @@ class DataC:
 
 
 prettyprinter.install_extras(['dataclasses'])
-EXTRA_FAMILIES = [['DD'], ['CM'], ['NS'], ['EXC'], ['PART'], ['MP'], ['TK'], ['LSUB'], ['DSUB'], ['UT'], ['UTC'], ['DC'], ['FST'], ['LTS'],
+EXTRA_FAMILIES = [['UT1'], ['UT2'], ['UTK'], ['EXC1'], ['CM1'], ['FZ1'], ['OD1'], ['DQ1'], ['UT1', 'L'], ['EXC1', 'UT1'], ['DD'], ['CM'], ['NS'], ['EXC'], ['PART'], ['MP'], ['TK'], ['LSUB'], ['DSUB'], ['UT'], ['UTC'], ['DC'], ['FST'], ['LTS'],
                   ['DD', 'T'], ['NS', 'CL'], ['EXC', 'D'], ['TK', 'L'], ['UTC', 'CL']]
 DEPTH_FAMILIES = [['L'], ['T'], ['D'], ['D3'], ['ST'], ['NT'], ['OD'], ['L', 'D'], ['T2', 'NT', 'L3'], ['CL'], ['CT'], ['CDK'], ['CNT'], ['TCL'], ['TCD'],
                   ['CL', 'D'], ['CDK', 'L'], ['CNT', 'TCL'], ['DQ']]
